@@ -736,7 +736,7 @@ can_emit(void)
   return (!empty(emit_q) &&
           (out_slots > EMIT_THRESH
            || (out_slots > 0 && !empty(order_q)
-               && pos_eq(peek(emit_q)->base, dq_get(order_q, 0).base))));
+               && pos_le(peek(emit_q)->base, dq_get(order_q, 0).base))));
 }
 
 static void
